@@ -246,4 +246,87 @@ pub fn run(ctx: &mut Ctx) {
         let _ = h0;
         ctx.tag("heap-limit:defvar");
     }
+    // changing one limit gives nothing back on another: with the instruction limit set once, the stack and heap limits
+    // are adjusted between sources (what a host does when it sizes the limits to the input it is about to feed) and
+    // still at most N instructions execute. Counted here: every accepted `1 drop` is two executed instructions.
+    for round in 0..(ctx.n / 30).max(24) {
+        let n_lim = 4 + ctx.rng.below(40);
+        let mut xs = base.clone();
+        xs.intercept_stdout(true);
+        xs.set_insn_limit(Some(n_lim)).unwrap();
+        let mut accepted = 0usize;
+        let mut trail: Vec<&str> = Vec::new();
+        for i in 0..(2 * n_lim) {
+            match crate::guarded(|| xs.eval("1 drop")) { Some(Ok(())) => accepted += 1, Some(Err(_)) => { xs.abort_run(); } None => break }
+            match (round + i) % 4 {
+                0 => { xs.set_stack_limit(Some(100 + i)).unwrap(); trail.push("set_stack_limit"); }
+                1 => { xs.set_heap_limit(Some(1000 + i)).unwrap(); trail.push("set_heap_limit"); }
+                2 => { xs.set_stack_limit(None).unwrap(); xs.set_heap_limit(None).unwrap(); trail.push("both limits off"); }
+                _ => { xs.set_recording_enabled(i % 8 == 3); trail.push("set_recording_enabled"); }
+            }
+        }
+        ctx.check(2 * accepted <= n_lim, || format!("C14 set_insn_limit({}) once, then {} x `1 drop`, each followed by one of set_stack_limit / set_heap_limit / both off / set_recording_enabled", n_lim, 2 * n_lim),
+            || format!("at most {} instructions execute after the limit is set: at most {} sources accepted", n_lim, n_lim / 2), || format!("{} accepted = {} instructions executed", accepted, 2 * accepted));
+        ctx.tag("other-limits-adjusted-between-sources");
+    }
+    // immediate words written in the language run while a source is BUILT, and what they execute is executed: a word
+    // whose body loops k times executes at least k instructions per use
+    for round in 0..(ctx.n / 30).max(24) {
+        let k = 3 + ctx.rng.below(12);
+        let n_lim = 10 + ctx.rng.below(120);
+        let mut xs = base.clone();
+        xs.intercept_stdout(true);
+        let def = match round % 3 { 0 => format!(": w immediate {} 0 do loop ;", k), 1 => format!(": w immediate 0 begin 1 + dup {} < while repeat drop ;", k), _ => format!(": w1 {} 0 do loop ; : w immediate w1 ;", k) };
+        xs.eval(&def).unwrap();
+        xs.set_insn_limit(Some(n_lim)).unwrap();
+        let mut uses = 0usize;
+        let one_source = round % 2 == 0;
+        if one_source {
+            // a source with m uses is accepted only if every one of them ran
+            for m in [1usize, 2, 3, 5, 8, 13, 21, 34] {
+                let src = format!("{}7 drop", "w ".repeat(m));
+                match crate::guarded(|| xs.eval(&src)) { Some(Ok(())) => uses += m, Some(Err(_)) => { xs.abort_run(); } None => break }
+            }
+        } else {
+            for _ in 0..(n_lim + 2) {
+                match crate::guarded(|| xs.eval("w")) { Some(Ok(())) => uses += 1, Some(Err(_)) => { xs.abort_run(); } None => break }
+            }
+        }
+        ctx.check(k * uses <= n_lim, || format!("C14 `{}`, set_insn_limit({}), then uses of w ({})", def, n_lim, if one_source { "sources with 1, 2, 3, 5 ... uses" } else { "one use per source" }),
+            || format!("at most {} instructions execute after the limit is set: at most {} completed uses of w ({} instructions each at the least)", n_lim, n_lim / k, k), || format!("{} completed uses = at least {} instructions", uses, k * uses));
+        ctx.tag("user-immediate-words-under-the-limit");
+    }
+    // an instruction that the stack limit refuses has not happened: when the limit is raised the stopped program goes
+    // on from that instruction and ends as it ends without a limit — also when the refused instruction is a read word
+    // (nothing of the input is consumed by a read that was refused)
+    for _ in 0..(ctx.n / 20).max(40) {
+        let words = ["u8", "u16", "i8", "8 bits", "1 bytes", "4 uint", "dup", "7", "\"s\"", "drop", "offset", "remain", "cstr", "u8 u8 +", "over"];
+        let len = 2 + ctx.rng.below(7);
+        let prog: Vec<&str> = (0..len).map(|_| *ctx.rng.pick(&words)).collect();
+        let src = prog.join(" ");
+        let bytes: Vec<u8> = (0..24).map(|i| if i % 7 == 6 { 0 } else { (ctx.rng.next_u64() as u8) | 1 }).collect();
+        let mut free = base.clone();
+        free.intercept_stdout(true);
+        free.set_binary_input(Xbitstr::from(bytes.clone())).unwrap();
+        let mut lim = free.clone();
+        let rf = crate::guarded(|| free.eval(&src));
+        if !matches!(rf, Some(Ok(()))) { ctx.tag("resume-after-refusal:program-fails-anyway"); continue; }
+        let s_lim = ctx.rng.below(3);
+        lim.set_stack_limit(Some(s_lim)).unwrap();
+        let mut r = match crate::guarded(|| lim.compile(&src)) { Some(Ok(())) => crate::guarded(|| lim.run()), other => other };
+        let mut refusals = 0;
+        let mut cur = s_lim;
+        while let Some(Err(e)) = &r {
+            if !format!("{:?}", e).contains("limit reached") || refusals > 40 { break; }
+            refusals += 1;
+            cur += 1;
+            lim.set_stack_limit(Some(cur)).unwrap();
+            r = crate::guarded(|| lim.run());
+        }
+        let sig = |xs: &Xstate| format!("offset={} stack=[{}]", crate::canon::cell(xs.get_var_value("offset").unwrap()), crate::canon::stack(xs).iter().map(crate::canon::cell).collect::<Vec<_>>().join(","));
+        let (a, b) = (sig(&free), sig(&lim));
+        ctx.check(matches!(r, Some(Ok(()))) && a == b, || format!("C14 `{}` on input {:02x?} under stack limit {}, the limit raised by one and `run` again after each of the {} refusals", src, bytes, s_lim, refusals),
+            || format!("ends as without a limit: {}", a), || format!("{:?} {}", r.map(|x| x.map_err(|e| crate::canon::err(&e))), b));
+        ctx.tag(if refusals > 0 { "resume-after-refusal" } else { "resume-after-refusal:never-refused" });
+    }
 }
